@@ -3,6 +3,7 @@ package props
 import (
 	"errors"
 	"fmt"
+	"io/fs"
 	"strings"
 
 	"hpverif/internal/core"
@@ -85,8 +86,9 @@ func (f *c06faultFile) Write(p []byte) (int, error) {
 type c06faultCase struct {
 	Src, Dst  string // names relative to their mounts (mounted at "a" and "b")
 	DstExists bool
-	Side      string // write | short-write | read
+	Side      string // write | short-write | read | remove-source | none (no fault: the rename must succeed)
 	At        int
+	Mode      uint32 // mode of the source file (0 = 0640)
 }
 
 func c06faultCases() []c06faultCase {
@@ -96,10 +98,14 @@ func c06faultCases() []c06faultCase {
 			for _, ex := range []bool{false, true} {
 				for _, side := range []string{"write", "short-write", "read"} {
 					for at := 0; at < 3; at++ {
-						cs = append(cs, c06faultCase{src, dst, ex, side, at})
+						cs = append(cs, c06faultCase{Src: src, Dst: dst, DstExists: ex, Side: side, At: at})
 					}
 				}
-				cs = append(cs, c06faultCase{src, dst, ex, "remove-source", 0})
+				cs = append(cs, c06faultCase{Src: src, Dst: dst, DstExists: ex, Side: "remove-source"})
+				// no fault: moved with the same bytes and the whole mode, special bits included
+				for _, m := range []fs.FileMode{0o640, fs.ModeSticky | 0o644, fs.ModeSetuid | 0o755, fs.ModeSetgid | fs.ModeSticky | 0o700, 0} {
+					cs = append(cs, c06faultCase{Src: src, Dst: dst, DstExists: ex, Side: "none", Mode: uint32(m) | 1<<31})
+				}
 			}
 		}
 	}
@@ -119,6 +125,7 @@ func c06crossfault(env *core.Env, cs c06case, idx int, res *core.CaseResult) {
 		dstFS.failWrite = fc.At
 	case "short-write":
 		dstFS.failWrite, dstFS.short = fc.At, true
+	case "none":
 	case "remove-source":
 		srcFS.failRemove = true // the copy succeeds, then the source cannot be removed
 	default:
@@ -128,7 +135,12 @@ func c06crossfault(env *core.Env, cs c06case, idx int, res *core.CaseResult) {
 	for _, f := range []hackpadfs.FS{srcIn, dstIn} {
 		_ = hackpadfs.Mkdir(f, "d", 0o755)
 	}
+	srcMode := fs.FileMode(0o640)
+	if fc.Mode&(1<<31) != 0 {
+		srcMode = fs.FileMode(fc.Mode &^ (1 << 31))
+	}
 	_ = hackpadfs.WriteFullFile(srcIn, fc.Src, []byte(payload), 0o640)
+	_ = hackpadfs.Chmod(srcIn, fc.Src, srcMode)
 	// bystanders: entries of each file system at the OTHER side's relative names, and neighbours
 	if fc.Src != fc.Dst {
 		_ = hackpadfs.WriteFullFile(dstIn, fc.Src, []byte("bystander at the source's relative name"), 0o600)
@@ -157,19 +169,59 @@ func c06crossfault(env *core.Env, cs c06case, idx int, res *core.CaseResult) {
 	for k, f := range parts {
 		before[k], _ = fsx.Snapshot(f, nil)
 	}
+	dk := "dst=missing"
+	if fc.DstExists {
+		dk = "dst=file"
+	}
 	st := fsx.Step{K: "Rename", P: "a/" + fc.Src, P2: "b/" + fc.Dst}
 	var hs fsx.Handles
 	r := fsx.Exec(m, st, &hs, nil)
 	fired := dstFS.writes > dstFS.failWrite && dstFS.failWrite >= 0 || srcFS.reads > srcFS.failRead && srcFS.failRead >= 0 || srcFS.removes > 0
 	res.Count("crossfault_cases", 1)
-	dk := "dst=missing"
-	if fc.DstExists {
-		dk = "dst=file"
-	}
 	sig := func(what string) string {
 		return fmt.Sprintf("C06|Rename|cross-mount,copy-fault=%s,%s|%s", fc.Side, dk, what)
 	}
 	wit := map[string]any{"case": fc, "step": st.String(), "result": r.String(), "fault_reached": fired}
+	if fc.Side == "none" {
+		res.Count("crossmount_moves_checked", 1)
+		res.Nontrivial = true
+		sigm := func(what string) string {
+			special := "plain-mode"
+			if srcMode&^fs.ModePerm != 0 {
+				special = "special-mode-bits"
+			}
+			return fmt.Sprintf("C06|Rename|cross-mount,%s,%s|%s", special, dk, what)
+		}
+		if !r.OK() {
+			res.Violate(sigm("got=fail,want=ok"), fmt.Sprintf("%s failed (%s) although nothing prevents the move", st, r), wit)
+			return
+		}
+		wantSrc, wantDst := fsx.Snap{}, fsx.Snap{}
+		for p, e := range before["source mount"] {
+			if p != fc.Src {
+				wantSrc[p] = e
+			}
+		}
+		for p, e := range before["destination mount"] {
+			wantDst[p] = e
+		}
+		wantDst[fc.Dst] = fsx.Entry{Kind: "f", Mode: uint32(srcMode & fsx.ModeBits), Size: int64(len(payload)), Data: payload}
+		for _, k := range []string{"root", "source mount", "destination mount"} {
+			want := before[k]
+			switch k {
+			case "source mount":
+				want = wantSrc
+			case "destination mount":
+				want = wantDst
+			}
+			after, _ := fsx.Snapshot(parts[k], nil)
+			if kind, detail := fsx.Diff(after, want); kind != "" {
+				res.Violate(sigm("moved-wrong:"+strings.Fields(k)[0]+":"+kind), fmt.Sprintf("after %s (source mode %s) the %s is not what 'moved with the same bytes and mode' gives: %s", st, srcMode, k, detail), wit)
+				return
+			}
+		}
+		return
+	}
 	if !fired {
 		res.Count("crossfault_fault_not_reached", 1)
 		return
